@@ -167,15 +167,23 @@ Fixpoint ltrim_ws (s : bytes) : bytes :=
   match s with b :: r => if is_ws b then ltrim_ws r else s | [] => [] end.
 Definition rtrim_ws (s : bytes) : bytes := rev (ltrim_ws (rev s)).
 Definition trim_ws (s : bytes) : bytes := rtrim_ws (ltrim_ws s).
+(* two adjacent pipes: spoiler syntax (extension), which a cell may begin or end with *)
+Fixpoint has_double_pipe (s : bytes) : bool :=
+  match s with
+  | a :: ((b :: _) as r) => (beqb a x7c && beqb b x7c) || has_double_pipe r
+  | _ => false
+  end.
 Definition first_line (s : bytes) : bytes :=
   (fix go (s : bytes) : bytes :=
      match s with [] => [] | b :: r => if beqb b LF || beqb b CR then [] else b :: go r end) s.
 
+(* a bare autolink (www., scheme://, e-mail found in text) is a Link whose only child is a Text with the
+   link's own source; escape and entity are excluded as for verbatim text *)
 (* ---- C12: the slice clause of one node (true = satisfied or no clause for this kind) ----
    smart = the smart-punctuation option was on (then the verbatim clause is not demanded) *)
 Definition bare_autolink (L : list srcline) (n : node) (s : bytes) : bool :=
   match nch n with
-  | [Node (Text lit) _ []] => bytes_eqb s lit
+  | [Node (Text lit) _ []] => has_special s || bytes_eqb s lit
   | _ => false
   end.
 
@@ -213,15 +221,17 @@ Definition slice_clause (L : list srcline) (smart : bool) (n : node) : bool :=
     | CodeBlock cb => starts_with s (rep (cb_fence_length cb) (byte_of_N (cb_fence_char cb)))
     | BlockQuote => ob_is (first_b s) x3e
     | ThematicBreak =>
-      match first_b s with
-      | Some c => (beqb c x2a || beqb c x2d || beqb c x5f) && ob_is (last_b s) c
-                  && forallb (fun b => beqb b c || beqb b x20 || beqb b x09) s
+      let s' := rtrim_ws s in
+      match first_b s' with
+      | Some c => (beqb c x2a || beqb c x2d || beqb c x5f) && ob_is (last_b s') c
+                  && forallb (fun b => beqb b c || beqb b x20 || beqb b x09) s'
       | None => false
       end
     | TableCell =>
       let s' := trim_ws s in
       bytes_eqb (first_line s) s &&
-      negb (ob_is (first_b s') x7c) && (negb (ob_is (last_b s') x7c) || ends_with s' [BSL; x7c])
+      (has_double_pipe s ||
+       negb (ob_is (first_b s') x7c) && (negb (ob_is (last_b s') x7c) || ends_with s' [BSL; x7c]))
     | _ => true
     end
   end.
